@@ -366,6 +366,8 @@ def c02(d, run):
     if _thorough(run):
         exh_stage(d, run, "real cache deviates from Cache.tla (lookup results / resident values)", "exh_q", ["store", "out", "chan"],
                   ["ResidentOwned", "NeverTwice", "NothingLost"])
+    free_stage(d, run, "the real cache violates a state predicate of Cache.tla at a quiescent point (incl. lookup guards held across clear())",
+               [("sync", "thread", 8, 40), ("async", "thread", 4, 24)])
     _need(d, h, ["Get", "GetMut", "InsBegin", "RemStore", "PNewStore"])
     run.nontrivial = len(getattr(run, "_distinct", ()))
     run.rule = ("one evaluation = one recorded critical section of the real cache under the baton scheduler; non-trivial = "
@@ -566,6 +568,8 @@ def c11(d, run):
     if _thorough(run):
         exh_stage(d, run, "real cache deviates from Cache.tla (clear)", "exh", ALL_CMP,
                   ["IndexExact", "Agree", "UsedIsSum", "MetricsLaws", "ResidentOwned", "ClearEmpties"], flavors=("sync", "async"))
+    free_stage(d, run, "the real cache violates a state predicate of Cache.tla at a quiescent point (clear() with a lookup guard held by another thread)",
+               [("sync", "thread", 8, 40), ("async", "thread", 4, 24)])
     _need(d, h, ["ClrSend", "ClrStore", "ClrMetrics", "PClrTake", "PCleanItem"])
     run.nontrivial = len(getattr(run, "_distinct", ()))
     run.rule = ("non-trivial = clear() calls with 0..buffer-size items pending, the processor and a second client interleaved at every "
